@@ -384,6 +384,12 @@ def bytes_eq(I, a: VBytes, b: VBytes):
                     conj.append(p == q)
             return z3.simplify(z3.And(conj)) if conj else z3.BoolVal(True)
     # both of symbolic length: segment-wise when aligned, extensional otherwise
+    if (len(a.segs) == 1 and len(b.segs) == 1 and isinstance(a.segs[0], View) and isinstance(b.segs[0], View)
+            and a.segs[0].base is b.segs[0].base):
+        k = z3.Int(I.fresh("k"))
+        ext = z3.ForAll([k], z3.Implies(z3.And(k >= 0, k < la), a.at(k) == b.at(k)))
+        from .values import _iv as _ivv
+        return z3.And(_ivv(la) == _ivv(lb), z3.Or(_ivv(la) <= 0, _ivv(a.segs[0].off) == _ivv(b.segs[0].off), ext))
     k = z3.Int(I.fresh("k"))
     ext = z3.ForAll([k], z3.Implies(z3.And(k >= 0, k < la), a.at(k) == b.at(k)))
     return z3.And(la == lb, ext)
